@@ -14,7 +14,7 @@ import re
 import time
 
 from engine import tlc, core, tracecheck
-from harness.adapters_c04 import sort_exp
+from harness.adapters_c04 import sort_exp, match_class, junk_kinds
 from harness import c04_tour
 
 ADAPTER = "harness.adapters_c04:Adapter"
@@ -50,8 +50,10 @@ EDGES_Q = [("EX_edges_cmdQ.cfg", dict(max_entries=2, late=True)),
            ("EX_edges_time2_late.cfg", dict(max_entries=2, late=True, scale=16000, prios="low")),
            ("EX_edges_time2_early.cfg", dict(max_entries=2, late=False))]
 TOUR_CAP = 9000       # at most this many tours of one graph are replayed
+TOUR_CAPS = {"EX_edges_sd.cfg": 3000}
 EDGES_BIG = [("EX_edges_cmd.cfg", dict(max_entries=2, late=True, prios="edge")),
              ("EX_edges_nw.cfg", dict(max_entries=2, late=True, cookies="edge", hostbits=True)),
+             ("EX_edges_sd.cfg", dict(max_entries=2, late=True, prios="edge")),
              ("EX_edges_time_late.cfg", dict(max_entries=2, late=True)),
              ("EX_edges_time_early.cfg", dict(max_entries=2, late=False))]
 
@@ -131,17 +133,21 @@ def run(ctx):
   rnd = random.Random(ctx.seed * 7919 + 4)
   ctx.rule = ("behaviours exported by TLC from FlowTable.tla (all paths of depth 3 over a "
               "FLOW_MOD/packet/tick/sweep/stats alphabet; transition tours covering every "
-              "transition of the abstract state graphs of six (quick) / ten (thorough) "
-              "alphabets (thorough: a seeded sample of 9000 tours of each of the two largest "
-              "graphs); -simulate walks of depth 60) replayed on a real SoftwareSwitch through "
+              "transition of the abstract state graphs of seven (quick) / twelve (thorough) "
+              "alphabets (thorough: a seeded sample of 9000 resp. 3000 tours of each of the three "
+              "largest graphs); -simulate walks of depth 60) replayed on a real SoftwareSwitch through "
               "OFConnection bytes, table + messages + emitted ports compared after every step; "
               "plus seeded random "
               "histories of the real switch validated by TLC (TraceFlowTable).  distinct = "
               "distinct action/argument sequences; non-trivial = some step changes the table "
               "or produces a message")
   ctx.assumptions = [
-      "matches range over in_port x dl_dst x nw_dst prefix (/8,/16,/32) and one exact match; "
-      "priorities 3 symbols (concretised plain and at 0/0x8000/0xffff), table capacity 1..3",
+      "matches range over in_port x dl_dst x nw_src prefix x nw_dst prefix (/8,/16,/32) and one "
+      "exact match; priorities 3 symbols (concretised plain and at 0/0x8000/0xffff), table "
+      "capacity 1..3",
+      "every FLOW_MOD / stats request carries a spelling (spec field sp): non-zero address bits "
+      "beyond the nw_src and/or nw_dst prefix length, junk values in wildcarded fields and "
+      "wildcard counts 33..63; the spec gives spellings no meaning (OpenFlow 1.0: ignored bits)",
       "clock: virtual; every tick is skewed by 1/1024 s so that 'age = timeout exactly' never "
       "occurs; both skew directions are run (removal threshold pinned from both sides)",
       "sweep = FlowTable.remove_expired_entries() (what ExpireMixin's timer calls)",
@@ -223,8 +229,9 @@ def run(ctx):
       raise tlc.TLCError("no behaviours exported by %s" % cfg)
     walks = c04_tour.tours(behs, maxlen=80, reach=4)
     ntours = len(walks)
-    if ntours > TOUR_CAP:                 # the two big timeout graphs: seeded sample
-      walks = rnd.sample(walks, TOUR_CAP)
+    cap = TOUR_CAPS.get(cfg, TOUR_CAP)
+    if ntours > cap:                      # the big graphs (thorough tier): seeded sample
+      walks = rnd.sample(walks, cap)
     _count_hows(walks, hows)
     st = core.replay(ctx, ADAPTER, walks, params=params, nontrivial=_nontrivial, chunk=20)
     ctx.notes["replay_" + cfg[3:-4]] = dict(transitions=len(behs), tours=ntours,
@@ -281,6 +288,10 @@ def run(ctx):
       if runs[t][2]["dontcare_bits"]:
         sig["dontcare_bits"] = True
         sig["dontcare"] = runs[t][2]["dontcare"]
+      if ev["a"] in ("FlowMod", "Stats"):
+        sp = ev["args"]["sp"] | (3 if runs[t][2]["hostbits"] else 0)
+        sig["match"] = match_class(ev["args"]["m"])
+        sig["spelling"] = junk_kinds(ev["args"]["m"], sp) or ["canonical"]
       if ev["a"] == "FlowMod":
         sig["cmd"] = ev["args"]["cmd"]
         sig["errors"] = sorted(m.get("code", "") for m in raw.get("msgs", [])
@@ -304,9 +315,9 @@ def run(ctx):
   ctx.exhaustive = True
   ctx.notes["exhaustive_scope"] = (
       "complete: all paths of depth 3 (thorough: and depth 5) over the stated alphabets, every "
-      "transition of the reduced graphs (cmdQ, nwQ, time1, time2) and, in thorough, of the cmd "
-      "and nw graphs; sampled: tours of the two largest timeout graphs (thorough), random "
-      "walks and random implementation histories")
+      "transition of the reduced graphs (cmdQ, nwQ, sdQ, time1, time2) and, in thorough, of the "
+      "cmd and nw graphs; sampled: tours of the two largest timeout graphs and of the sd graph "
+      "(thorough), random walks and random implementation histories")
 
 
 _exp_re = re.compile(r'^<<"EXPECTED", (\d+), (\d+), "([a-z_]+)", (".*")>>$')
@@ -340,7 +351,10 @@ MATCHES = [_M(0, 0), _M(1, 0), _M(2, 0), _M(0, 1), _M(0, 2), _M(1, 1), _M(2, 1),
 MATCHES_SD = [_M(0, 0, sl=8, sv=20), _M(0, 0, sl=16, sv=5121), _M(0, 0, 8, 10, sl=8, sv=20),
               _M(0, 0, 8, 10, sl=16, sv=5121), _M(0, 0, 16, 2561, sl=8, sv=20),
               _M(0, 0, 16, 2561, sl=16, sv=5121), _M(0, 0, 16, 2561, sl=16, sv=5122),
-              _M(1, 0, sl=16, sv=5121), _M(0, 0, 32, H1, sl=32, sv=SRC)]
+              _M(1, 0, sl=16, sv=5121), _M(0, 0, 32, H1, sl=32, sv=SRC),
+              # zero continuation of 20/8 and 10/8: same network address, longer prefix
+              _M(0, 0, 16, 2560, sl=16, sv=5120), _M(0, 0, sl=16, sv=5120),
+              _M(0, 0, 8, 10, sl=16, sv=5120), _M(0, 0, 16, 2560, sl=8, sv=20)]
 EXACT = _M(1, 1, 32, H1, 1, sl=32, sv=SRC)
 PKTS = [dict(ip=1, dd=1, ns=SRC, na=H1, ref=1, len=60), dict(ip=1, dd=1, ns=SRC, na=H1, ref=0, len=62),
         dict(ip=1, dd=2, ns=SRC, na=167903233, ref=0, len=100),
